@@ -61,6 +61,9 @@ func c16Roundtrip(c *core.Ctx, k *core.Case) {
 		c.Fail(k, "pco-first-octet", fmt.Sprintf("Marshal starts with %x, want 80", got))
 		return
 	}
+	if again := p.Marshal(); !bytes.Equal(again, got) {
+		c.Fail(k, "pco-marshal-not-repeatable", fmt.Sprintf("a second Marshal of the same list gives %s, the first gave %s", hx(again), hx(got)))
+	}
 	if !bytes.Equal(got, want) {
 		c.Fail(k, "pco-layout", fmt.Sprintf("Marshal = %s, TS 24.008 10.5.6.3 layout %s", hx(got), hx(want)))
 		return
@@ -170,7 +173,11 @@ func c16Psi(c *core.Ctx, k *core.Case) {
 				break
 			}
 		}
-		if back := nasConvert.PSIToBuf(arr); !bytes.Equal(back, b) {
+		back0 := nasConvert.PSIToBuf(arr)
+		if v%257 == 0 {
+			c.Hold(kk, "nasConvert.PSIToBuf", back0)
+		}
+		if back := back0; !bytes.Equal(back, b) {
 			c.Fail(kk, "psi-roundtrip", fmt.Sprintf("PSIToBuf(PSIToBooleanArray(%x)) = %x", b, back))
 		}
 		// converse: array built independently from the value
